@@ -51,7 +51,10 @@ type c01Event struct {
 }
 
 type c01Case struct {
-	R c01Recipe `json:"r"`
+	// a sequence case: the events of Seq are handed to the real code one after the other,
+	// in this order, in one process; R and the observation fields below are then unused
+	Seq []c01Case `json:"seq,omitempty"`
+	R   c01Recipe `json:"r"`
 	// the event that was checked, and what was observed
 	E      c01Event `json:"e"`
 	Ser    string   `json:"ser"`    // Serialize() (hex)
@@ -306,9 +309,9 @@ func c01Run(c *c01Case) {
 		} else {
 			kind += d
 		}
-	case "ts":
+	case "ts": // a neighbouring value, above or below
 		d := int64(1 + r.N%3)
-		if ts > math.MaxInt64-d {
+		if ts > math.MaxInt64-d || ((r.N/3)%2 == 1 && ts >= math.MinInt64+d) {
 			ts -= d
 		} else {
 			ts += d
@@ -320,6 +323,17 @@ func c01Run(c *c01Case) {
 			val += "x"
 		}
 		pk = val
+	case "reid_pk": // a bit of the pubkey flipped and the id recomputed: the id check passes, the key is wrong (or not on the curve)
+		pk = reenc(pk, r.N)
+		h2 := sha256.Sum256(c01Canon(pk, ts, kind, tags, content))
+		id = hex.EncodeToString(h2[:])
+	case "reid_pk_text": // an arbitrary string as pubkey and the id recomputed
+		if val == pk {
+			val += "x"
+		}
+		pk = val
+		h2 := sha256.Sum256(c01Canon(pk, ts, kind, tags, content))
+		id = hex.EncodeToString(h2[:])
 	case "sig_other": // a valid signature of another message under the same key
 		h2 := sha256.Sum256(append(append([]byte{}, canon...), 'x'))
 		s2, err := schnorr.Sign(priv, h2[:])
@@ -473,7 +487,9 @@ func c01Run(c *c01Case) {
 // ---- generators
 
 var c01Classes = []string{"ascii", "ascii", "html", "html", "lsps", "c0", "c0", "del", "utf2", "utf3", "utf4", "edges",
-	"quotes", "uesc", "mixed", "mixed", "empty"}
+	"quotes", "uesc", "repl", "mixed", "mixed", "empty"}
+
+const c01PieceClasses = 15 // the classes before "mixed"
 
 func c01Rune(r *common.Rand, lo, hi rune) rune {
 	for {
@@ -504,6 +520,8 @@ func c01Piece(r *common.Rand, cls string) string {
 		return string(c01Rune(r, 0x10000, 0x10ffff))
 	case "edges":
 		return common.Pick(r, []string{"\xed\x9f\xbf", "\xee\x80\x80", "\xef\xbf\xbd", "\xf4\x8f\xbf\xbf", "\xf0\x90\x80\x80", "\xdf\xbf", "\xe0\xa0\x80", "\xef\xbf\xbf", "\x7f", "\xc2\x80"}) // U+D7FF U+E000 U+FFFD U+10FFFF U+10000 U+7FF U+800 U+FFFF U+7F U+80
+	case "repl": // a genuine U+FFFD REPLACEMENT CHARACTER (what a decoder leaves behind), alone, repeated, and its neighbours U+FFFC U+FFFE
+		return common.Pick(r, []string{"\xef\xbf\xbd", "\xef\xbf\xbd", "\xef\xbf\xbd\xef\xbf\xbd", "a\xef\xbf\xbdb", "\xef\xbf\xbc", "\xef\xbf\xbe", "?\xef\xbf\xbd"})
 	case "quotes":
 		n := 1 + r.Intn(4)
 		s := ""
@@ -529,7 +547,7 @@ func c01String(r *common.Rand, cls string) string {
 	for i := 0; i < n; i++ {
 		k := cls
 		if cls == "mixed" {
-			k = common.Pick(r, c01Classes[:14])
+			k = common.Pick(r, c01Classes[:c01PieceClasses])
 		} else if r.Chance(35) {
 			k = "ascii"
 		}
@@ -539,8 +557,19 @@ func c01String(r *common.Rand, cls string) string {
 }
 
 var c01Kinds = []int64{0, 1, 3, 5, 7, 9999, 10000, 10001, 19999, 20000, 20001, 29999, 30000, 30001, 39999, 40000, 65534, 65535}
-var c01OddKinds = []int64{65536, -1, 1 << 31, 1 << 53, math.MaxInt64, math.MinInt64}
+var c01OddKinds = []int64{65536, -1, 1 << 31, 1 << 53, 1<<53 + 1, 1<<60 + 1, math.MaxInt64, math.MinInt64}
 var c01Times = []int64{0, 1, -1, -1700000000, 1 << 31, 1<<31 - 1, 1 << 32, 1 << 53, 1<<53 + 1, math.MaxInt64, math.MaxInt64 - 1, math.MinInt64, 1700000000, 9, 10, 99, 100}
+
+// c01BigTime: a created_at of large magnitude, 2^e + d for e in 53..62 and small d, either sign:
+// the integers that a float64 (or a JSON number decoded into one) cannot tell from their neighbours
+func c01BigTime(r *common.Rand) int64 {
+	e := uint(53 + r.Intn(10))
+	v := int64(1)<<e + int64(r.Intn(7)) - 3
+	if r.Chance(30) {
+		v = -v
+	}
+	return v
+}
 
 func c01Hex32(r *common.Rand) string {
 	b := make([]byte, 32)
@@ -568,8 +597,10 @@ func c01Base(r *common.Rand) c01Recipe {
 	switch x := r.Intn(100); {
 	case x < 40:
 		rc.TS = 1600000000 + int64(r.Intn(200000000))
-	case x < 55:
+	case x < 52:
 		rc.TS = int64(r.U64())
+	case x < 64:
+		rc.TS = c01BigTime(r)
 	default:
 		rc.TS = common.Pick(r, c01Times)
 	}
@@ -619,7 +650,7 @@ func c01Base(r *common.Rand) c01Recipe {
 	return rc
 }
 
-var c01Alts = []string{"content", "tag", "tag_drop", "kind", "ts", "pk", "pk_text", "sig_other", "sig_key2",
+var c01Alts = []string{"content", "tag", "tag_drop", "kind", "ts", "pk", "pk_text", "reid_pk", "reid_pk_text", "sig_other", "sig_key2",
 	"bit_id", "bit_pk", "bit_sig", "bit_content", "txt_id", "txt_sig", "txt_pk", "case_id", "case_sig", "case_all",
 	"trunc_id", "trunc_sig"}
 
@@ -643,6 +674,92 @@ func c01Sweep(r *common.Rand, k int) c01Recipe {
 	return rc
 }
 
+// ---- sequences: several events verified one after the other in this process
+
+// the alterations after which Verify is expected to take an error return (undecodable
+// id/pubkey/sig text, a pubkey that is not a curve point) or at least an early one
+var c01ErrAlts = []string{"reid_pk", "reid_pk", "reid_pk_text", "pk_text", "bit_pk", "txt_pk", "txt_id", "txt_sig",
+	"trunc_id", "trunc_sig"}
+
+func c01AltOf(r *common.Rand, base c01Recipe, alt string) c01Recipe {
+	a := base
+	a.Alt = alt
+	a.N = r.Intn(1 << 20)
+	switch a.Alt {
+	case "content", "tag":
+		a.Val = hx(c01String(r, common.Pick(r, c01Classes)))
+	case "pk_text", "reid_pk_text":
+		a.Val = hx(common.Pick(r, []string{"", "zz", c01String(r, "mixed"), c01String(r, "quotes"), c01String(r, "html"),
+			"0000000000000000000000000000000000000000000000000000000000000005",   // 64 hex digits, x not on the curve
+			"fffffffffffffffffffffffffffffffffffffffffffffffffffffffefffffc30"})) // x >= p
+	}
+	return a
+}
+
+// c01SeqGen: 2..5 events over one or two signed base events: the base itself (possibly more
+// than once), alterations that make Verify fail early, and arbitrary alterations, in any order.
+func c01SeqGen(r *common.Rand) c01Case {
+	bases := []c01Recipe{c01Base(r)}
+	if r.Chance(50) {
+		bases = append(bases, c01Base(r))
+	}
+	n := 2 + r.Intn(4)
+	var c c01Case
+	for i := 0; i < n; i++ {
+		b := common.Pick(r, bases)
+		var rc c01Recipe
+		switch x := r.Intn(100); {
+		case x < 45:
+			rc = b
+		case x < 80:
+			rc = c01AltOf(r, b, common.Pick(r, c01ErrAlts))
+		default:
+			rc = c01AltOf(r, b, common.Pick(r, c01Alts))
+		}
+		c.Seq = append(c.Seq, c01Case{R: rc})
+	}
+	return c
+}
+
+// c01Settle: between two cases the real Verify is called on a fixed correctly signed event
+// (result ignored), so that every case starts from the same history: whatever a case observes
+// is then a function of the case alone, and a replay of the case reproduces it.
+var c01SettleEv *mocrelay.Event
+
+func c01Settle() {
+	if c01SettleEv == nil {
+		priv := c01Key("0000000000000000000000000000000000000000000000000000000000000003")
+		pk := hex.EncodeToString(schnorr.SerializePubKey(priv.PubKey()))
+		h := sha256.Sum256(c01Canon(pk, 1700000000, 1, [][]string{}, "settle"))
+		sg, err := schnorr.Sign(priv, h[:])
+		if err != nil {
+			common.Fatalf("cannot sign: %v", err)
+		}
+		c01SettleEv = &mocrelay.Event{ID: hex.EncodeToString(h[:]), Pubkey: pk, CreatedAt: 1700000000, Kind: 1,
+			Tags: []mocrelay.Tag{}, Content: "settle", Sig: hex.EncodeToString(sg.Serialize())}
+	}
+	func() {
+		defer func() { recover() }()
+		c01SettleEv.Verify()
+	}()
+}
+
+// c01RunCase runs a single-event case or, in order, the events of a sequence case.
+func c01RunCase(c *c01Case) {
+	c01Settle()
+	if len(c.Seq) == 0 {
+		c01Run(c)
+		return
+	}
+	for i := range c.Seq {
+		c.Seq[i] = c01Case{R: c.Seq[i].R}
+		if c.Seq[i].R.Tags == nil {
+			c.Seq[i].R.Tags = [][]string{}
+		}
+		c01Run(&c.Seq[i])
+	}
+}
+
 func init() {
 	subcmds["c01"] = func(seed uint64, n int, out *common.Out, replay string) {
 		if replay != "" {
@@ -651,11 +768,11 @@ func init() {
 				if err := json.Unmarshal(raw, &c); err != nil {
 					common.Fatalf("bad replay case: %v", err)
 				}
-				c = c01Case{R: c.R}
+				c = c01Case{R: c.R, Seq: c.Seq}
 				if c.R.Tags == nil {
 					c.R.Tags = [][]string{}
 				}
-				c01Run(&c)
+				c01RunCase(&c)
 				out.Emit(c)
 			}
 			return
@@ -682,28 +799,25 @@ func init() {
 			if exhaustive && sweepDone < nSweep && (out.N >= n || out.N >= sweepDone*sweepEvery) {
 				c := c01Case{R: c01Sweep(r, sweepDone)}
 				sweepDone++
-				c01Run(&c)
+				c01RunCase(&c)
+				out.Emit(c)
+				continue
+			}
+			if i%4 == 3 { // a sequence case
+				c := c01SeqGen(r)
+				c01RunCase(&c)
 				out.Emit(c)
 				continue
 			}
 			base := c01Base(r)
 			c := c01Case{R: base}
-			c01Run(&c)
+			c01RunCase(&c)
 			out.Emit(c)
 			// alterations of this signed event
 			na := 4 + r.Intn(8)
 			for j := 0; j < na && out.N < n; j++ {
-				a := base
-				a.Alt = common.Pick(r, c01Alts)
-				a.N = r.Intn(1 << 20)
-				switch a.Alt {
-				case "content", "tag":
-					a.Val = hx(c01String(r, common.Pick(r, c01Classes)))
-				case "pk_text":
-					a.Val = hx(common.Pick(r, []string{"", "zz", c01String(r, "mixed"), c01String(r, "quotes"), c01String(r, "html")}))
-				}
-				ac := c01Case{R: a}
-				c01Run(&ac)
+				ac := c01Case{R: c01AltOf(r, base, common.Pick(r, c01Alts))}
+				c01RunCase(&ac)
 				out.Emit(ac)
 			}
 		}
